@@ -25,13 +25,13 @@ def ref_anb(a: int, b: int, pos: int) -> bool:
 
 
 # node kinds of a sibling layout
-K_LI, K_LIX, K_P, K_PX, K_TEXT, K_COMMENT = range(6)
-ELEMENT_KINDS = (K_LI, K_LIX, K_P, K_PX)
+K_LI, K_LIX, K_P, K_PX, K_TEXT, K_COMMENT, K_LIU = range(7)
+ELEMENT_KINDS = (K_LI, K_LIX, K_P, K_PX, K_LIU)      # K_LIU: <LI> spelled in upper case through the API
 
 
 def _layouts():
     out = []
-    full = (K_LI, K_LIX, K_P, K_PX, K_TEXT, K_COMMENT)
+    full = (K_LI, K_LIX, K_P, K_PX, K_TEXT, K_COMMENT, K_LIU)
     small = (K_LI, K_P, K_TEXT)
     maxfull, maxsmall = (3, 4) if TIER == 'quick' else (5, 8)
     for n in range(1, maxfull + 1):
@@ -61,7 +61,7 @@ def build(layout, container):
     els = []
     for k in layout:
         if k in ELEMENT_KINDS:
-            el = soup.new_tag('li' if k in (K_LI, K_LIX) else 'p')
+            el = soup.new_tag('LI' if k == K_LIU else ('li' if k in (K_LI, K_LIX) else 'p'))
             if k in (K_LIX, K_PX):
                 el.attrs['class'] = ['x']
             parent.append(el)
@@ -73,14 +73,22 @@ def build(layout, container):
     return soup, parent, els
 
 
-def ref_position(els, i, last, of_type, of_x):
+def _type_of(k, xml):
+    if k in (K_LI, K_LIX):
+        return 'li'
+    if k == K_LIU:
+        return 'LI' if xml else 'li'
+    return 'p'
+
+
+def ref_position(els, i, last, of_type, of_x, xml=False):
     """1-based position of els[i] among its qualifying element siblings, or 0 if it does not qualify."""
     k, _ = els[i]
 
     def qual(kk):
         if of_x and kk not in (K_LIX, K_PX):
             return False
-        if of_type and (kk in (K_LI, K_LIX)) != (k in (K_LI, K_LIX)):
+        if of_type and _type_of(kk, xml) != _type_of(k, xml):
             return False
         return True
 
@@ -165,7 +173,7 @@ def nth_walk_ok(wi: int, mode: int, last: bool) -> bool:
         sel = ct.SelectorList() if of_type else (S_CLASS_X if of_x else cp.CSS_NTH_OF_S_DEFAULT)
         ok = True
         for i in range(len(els)):
-            pos = ref_position(els, i, last, of_type, of_x)
+            pos = ref_position(els, i, last, of_type, of_x, container == 3)
             for p in range(0, len(els) + 2):
                 nth = SimpleNamespace(a=p, n=False, b=0, of_type=of_type, last=last, selectors=sel)
                 if bool(m.match_nth(els[i][1], (nth,))) != (pos == p and pos > 0):
@@ -206,8 +214,8 @@ def nth_pairs_ok(wi: int, pm: int, last1: bool, last2: bool) -> bool:
                     n1 = SimpleNamespace(a=p, n=False, b=0, of_type=specs[0][0], last=specs[0][2], selectors=specs[0][3])
                     n2 = SimpleNamespace(a=q, n=False, b=0, of_type=specs[1][0], last=specs[1][2], selectors=specs[1][3])
                     both = bool(m.match_nth(els[i][1], (n1, n2)))
-                    exp = (ref_position(els, i, specs[0][2], specs[0][0], specs[0][1]) == p and
-                           ref_position(els, i, specs[1][2], specs[1][0], specs[1][1]) == q)
+                    exp = (ref_position(els, i, specs[0][2], specs[0][0], specs[0][1], container == 3) == p and
+                           ref_position(els, i, specs[1][2], specs[1][0], specs[1][1], container == 3) == q)
                     if both != exp:
                         ok = False
     return ret(ok)
